@@ -49,6 +49,35 @@ Definition train (P : list (list Z)) : res (list (list Z)) :=
       else Raise IndexError
   end.
 
+(* ---------- train once more, as the three loops with the element accesses that can raise ----------
+   `train` above decides the IndexError by a pre-check on the pattern lengths; `train_loop` is the
+   statement-by-statement form (P[0]; W[i, j] = 0; W[i, j] += p[i]*p[j] as element reads / writes that raise
+   IndexError out of range), a target for the source translator.  Proofs/HopfieldProofs.v: train_loop_eq
+   proves train_loop P = train P for every P (same value or same exception). *)
+(* for x in l: a = f(a, x), stopping at the first exception *)
+Fixpoint for_res {A B} (f : A -> B -> res A) (l : list B) (a : A) : res A :=
+  match l with
+  | [] => Ok a
+  | x :: l' => bind (f a x) (for_res f l')
+  end.
+(* W[i, j] = f(W[i, j]) for non-negative i, j (they come from range()): IndexError out of range *)
+Definition mset_py (W : list (list Z)) (i j : nat) (f : Z -> Z) : res (list (list Z)) :=
+  match nth_error W i with
+  | Some row => match nth_error row j with Some _ => Ok (mupd W i j f) | None => Raise IndexError end
+  | None => Raise IndexError
+  end.
+(* if i == j: W[i, j] = 0  else: W[i, j] += p[i]*p[j] *)
+Definition train_cell_m (p : list Z) (W : list (list Z)) (i j : nat) : res (list (list Z)) :=
+  if Nat.eqb i j then mset_py W i j (fun _ => 0)
+  else bind (py_get p (Z.of_nat i)) (fun pi =>
+       bind (py_get p (Z.of_nat j)) (fun pj => mset_py W i j (fun w => w + pi * pj))).
+Definition train_pattern_m (W : list (list Z)) (p : list Z) : res (list (list Z)) :=
+  for_res (fun W1 i => for_res (fun W2 j => train_cell_m p W2 i j) (seq 0 (length p)) W1)
+          (seq 0 (length p)) W.
+Definition train_loop (P : list (list Z)) : res (list (list Z)) :=
+  bind (py_get P 0) (fun p0 =>
+    for_res train_pattern_m P (zeros (length p0) (length p0))).
+
 (* self._r = num_cells // 2 *)
 Definition hopfield_r (num_cells : nat) : nat := (num_cells / 2)%nat.
 
